@@ -7,7 +7,7 @@
 # Scratch lives under /tmp/ms and is removed at the end.
 set -u
 tier=${1:-quick}; shift || true
-S=/tmp/ms
+S=${SWEEPDIR:-/tmp/ms}
 export GOFLAGS=-mod=mod GOPROXY=off GOSUMDB=off GOTOOLCHAIN=local
 rm -rf $S/verif; mkdir -p $S
 git -C /repo worktree remove --force $S/repo 2>/dev/null
